@@ -30,8 +30,11 @@ def run_vreplay(args, timeout=300):
         return None, "replay crate does not build: " + msg
     os.makedirs("/verif/.work/rt", exist_ok=True)
     try:
-        p = subprocess.run([BIN] + args, stdout=subprocess.PIPE, stderr=subprocess.STDOUT, timeout=timeout,
-                           stdin=subprocess.DEVNULL)
+        # the replayer's own stdin, stdout and stderr must be three different objects, or
+        # wiring mistakes between inherited streams would be invisible
+        errf = open("/verif/.work/rt/vreplay.stderr", "w")
+        p = subprocess.run([BIN] + args, stdout=subprocess.PIPE, stderr=errf, timeout=timeout,
+                           stdin=open("/dev/zero", "rb"))
         return p.stdout.decode("utf-8", "replace"), None
     except subprocess.TimeoutExpired as e:
         return (e.stdout or b"").decode("utf-8", "replace") + "\nHANG (native watchdog %ds)\n" % timeout, None
@@ -55,6 +58,8 @@ FAMILIES = [
     (r"^h_fail_child", "fail", []),
     (r"^h_(argv|ident|env)", "ident", []),
     (r"^h_(lookup|split)", "lookup", []),
+    (r"^h_(life|wait)", "life", []),
+    (r"^h_comm", "comm", []),
 ]
 
 
